@@ -19,17 +19,12 @@ def route(case):
     if case.startswith("W "):
         return "radius"
     return "aaa_race" if case.startswith("Sr ") else "aaa"
-# Model variants v<s><o><l>: /repo HEAD plus any subset of the three OPEN repairs (1 = repaired):
-#   s  fix_sent    a high-water mark of every value sent is kept and used as the floor of the next report
-#   o  fix_order   the provider calls of one session arrive in the order they were issued
-#   l  fix_l2stop  the Stop of an l2gw session reads the l2gw stats segment
-# first variant: all repairs (the full theorems); last: /repo HEAD.  (The three defects of the code as first found are
-# fixed in /repo; a regression of any of them matches no variant and is a VIOLATION.)
-VARIANTS = ["repaired", "v011", "v101", "v110", "v001", "v010", "v100", "head"]
-FLAGS = {"repaired": "", "v011": "s", "v101": "o", "v110": "l", "v001": "so", "v010": "sl", "v100": "ol", "head": "sol"}
-SIG = {"s": "sendAccountingUpdate-sent-value-not-remembered-when-unacknowledged",
-       "o": "start-stop-interim-sent-from-unordered-goroutines",
-       "l": "handleSessionRelease-l2gw-stop-reads-interface-table"}
+# Model variants: "repaired" = /repo HEAD plus ordered per-session delivery of the provider calls (the one finding that
+# is still open); "head" = /repo HEAD.  Every other finding is fixed in /repo (7e92d8e, e0693a6, d70a5ae, 9b87063,
+# d95fed1): a regression to any of them matches neither variant and is reported as a VIOLATION.
+VARIANTS = ["repaired", "head"]
+FLAGS = {"repaired": "", "head": "o"}
+SIG = {"o": "start-stop-interim-sent-from-unordered-goroutines"}
 RULE = ("One case = one history of the real AAA component with 1-4 sessions (two of them share an interim bucket; 6% of "
         "the histories have 5-7 sessions crowded in one bucket, with releases between ticks); "
         "IPoE, PPPoE and l2gw payloads; l2gw sessions read the l2gw stats segment - access and handoff entry - on a tick, "
@@ -49,7 +44,10 @@ RULE = ("One case = one history of the real AAA component with 1-4 sessions (two
         "allows; each such history is run 5 times and must repeat. Asynchronous delivery: histories in which StartAccounting calls are held back inside the provider fake "
         "(H,S) while ticks / releases / further announcements happen, then let through (U); compared exactly: the order "
         "in which calls ARRIVE at the provider; verdict bits brk / mono / snt (every value sent) / ord (strict bracket) "
-        "are computed in Go on the arrival stream. Wire part: the real RADIUS Provider (Start/Update/StopAccounting over a real radiusConn) against a loopback "
+        "are computed in Go on the arrival stream. Interims in flight: UpdateAccounting calls are recorded on receipt but their response is held back (H,I) "
+        "while the session is released (with / without a dataplane reading), re-announced or pruned; the response is then "
+        "delivered (acknowledged / failed); compared exactly: every call with its counters, in particular the Stop issued "
+        "while an Interim is unanswered. Wire part: the real RADIUS Provider (Start/Update/StopAccounting over a real radiusConn) against a loopback "
         "UDP accounting server; counters at and around 2^32, 2^33, 2^40, 2^63, 2^64-1 for every status type, sessions "
         "growing through those boundaries; compared: attributes 40/42/43/52/53/47/48 of every Accounting-Request and the "
         "monotone monitor on the 64-bit values the server reconstructs. Non-trivial: at least one Interim and a Stop or "
@@ -336,6 +334,58 @@ def gen_hold(rng):
     return " ".join(head + ops)
 
 
+def gen_inflight(rng):
+    """Interims in flight: H,I ; a tick (the Interim reaches the backend, its response is outstanding) ; then, while it
+    is unanswered: release (with / without a dataplane reading, counters restarted), re-announcement, prune ; U delivers
+    the response (acknowledged or failed) ; suffix.  No second tick of the same bucket and no restart while unanswered."""
+    k = rng.choice([1, 1, 2])
+    sess = rng.sample(POOL, k)
+    tys = [rng.choice("iipg") for _ in sess]
+    head = ["S", str(k)] + ["%s:%d:%s" % (sid, b, t) for (sid, b), t in zip(sess, tys)]
+    pl = Plane(rng, False)
+    pl.l2gw = "g" in tys
+    ifx = {x: rng.choice(IFX) for x in range(k)}
+    ops = []
+    for x in range(k):
+        ops.append(("A,%d,%d,%d" if rng.random() < 0.8 else "R,%d,%d,%d") % (x, ifx[x], rng.choice(IFX)))
+    for _ in range(rng.randrange(0, 3)):
+        pl.evolve()
+        x = rng.randrange(k)
+        ops.append("T,%d,%d,%s" % (sess[x][1], rng.choice([0, 0, 1 << x]), snap_tok(pl.snapshot())))
+    if rng.random() < 0.15:
+        ops.append("B")
+        ops += ["R,%d,%d,%d" % (x, ifx[x], rng.choice(IFX)) for x in range(k)]
+    ops.append("H,I")
+    j = rng.randrange(k)
+    pl.evolve()
+    ops.append("T,%d,%d,%s" % (sess[j][1], rng.choice([0, 0, 0, 1 << j]), snap_tok(pl.snapshot())))
+    for _ in range(rng.choice([1, 1, 2, 3])):
+        x = rng.randrange(k)
+        r = rng.random()
+        if r < 0.55:
+            m = rng.random()
+            if m < 0.4:
+                sn = rng.choice(["e", "-", "e|e"])            # no usable reading at release (interface already gone)
+            else:
+                pl.evolve()
+                sn = snap_tok(pl.snapshot())
+            ops.append("X,%d,%s" % (x, sn))
+        elif r < 0.75:
+            ops.append("A,%d,%d,%d" % (x, ifx[x], rng.choice(IFX)))
+        elif r < 0.9:
+            ops.append("R,%d,%d,%d" % (x, rng.choice(IFX), rng.choice(IFX)))
+        else:
+            ops.append("P,%d" % rng.choice([0, 1]))
+    ops.append("U")
+    ops.append("H,-")
+    for _ in range(rng.randrange(0, 3)):
+        pl.evolve()
+        x = rng.randrange(k)
+        ops.append(rng.choice(["T,%d,0,%s" % (sess[x][1], snap_tok(pl.snapshot())), "A,%d,%d,%d" % (x, ifx[x], ifx[x]),
+                               "X,%d,%s" % (x, rng.choice(["e", snap_tok(pl.snapshot())]))]))
+    return " ".join(head + ops)
+
+
 def gen_conc(rng, racy):
     """history = sequential prefix, one forced-overlap group, (deterministic groups only) a sequential suffix.
     Deterministic group: 2-4 duplicated Released of one session, optionally Released of other sessions and one tick.
@@ -433,6 +483,13 @@ def gen_cases(rng, tier, budget):
               "S 1 s7:7:i H,S A,0,5 T,7,0,5:400:4:4:4 U T,7,0,5:500:5:5:5 X,0,e"]
     for i in range(120 if tier == "quick" else 2000):
         cases.append(gen_hold(rng))
+    # Interims in flight (sent, response outstanding) while the session is released / re-announced
+    cases += ["S 1 s7:7:i A,0,5 T,7,0,5:500000:1:1:1 H,I T,7,0,5:1500000:2:2:2 X,0,e U",
+              "S 1 s7:7:i A,0,5 T,7,0,5:500000:1:1:1 H,I T,7,1,5:1500000:2:2:2 X,0,5:7:7:7:7 U",
+              "S 1 s7:7:i R,0,5 H,I T,7,0,5:1500000:2:2:2 X,0,- U H,- A,0,5 T,7,0,5:3:3:3:3 X,0,e",
+              "S 1 s7:7:i A,0,5 H,I T,7,0,5:1500000:2:2:2 U H,- T,7,0,e X,0,e"]
+    for i in range(150 if tier == "quick" else 2500):
+        cases.append(gen_inflight(rng))
     # wire part
     g = 2 ** 32
     cases += ["W S,0,0,0,0 I,3000000000,4000000000,3000000,4000000 I,%d,%d,4295967,8589939 E,%d,%d,4296967,8589943" % (
